@@ -936,10 +936,17 @@ def partials_to_defs(tree):
                 stores[x.arg] = stores.get(x.arg, 0) + 1
             elif isinstance(x, ast.AugAssign) and isinstance(x.target, ast.Name):
                 stores[x.target.id] = stores.get(x.target.id, 0) + 1
-        for i, st in enumerate(fn.body):
+        for i, st in enumerate(list(fn.body)):
+            if not any(st is x for x in fn.body):
+                continue
+            i = next(k for k, x in enumerate(fn.body) if x is st)
             if not (isinstance(st, ast.Assign) and len(st.targets) == 1 and isinstance(st.targets[0], ast.Name) and isinstance(st.value, ast.Call)):
                 continue
             c = st.value
+            # `xnp.jit(partial(..))`: the decorator form of the same closure
+            deco = None
+            if isinstance(c.func, ast.Attribute) and c.func.attr == "jit" and len(c.args) == 1 and not c.keywords and isinstance(c.args[0], ast.Call):
+                deco, c = c.func, c.args[0]
             fname = c.func.id if isinstance(c.func, ast.Name) else (c.func.attr if isinstance(c.func, ast.Attribute) and isinstance(c.func.value, ast.Name) and c.func.value.id == "functools" else None)
             if fname != "partial" or not c.args or not isinstance(c.args[0], ast.Name) or c.args[0].id not in module_fns:
                 continue
@@ -954,10 +961,17 @@ def partials_to_defs(tree):
             if len(c.args) - 1 > len(params) or any(k.arg in bound or k.arg not in params + [p.arg for p in a.kwonlyargs] for k in c.keywords):
                 continue
             bound.update({k.arg: k.value for k in c.keywords})
-            if any(stores.get(x.id, 0) > 1 for e in bound.values() for x in ast.walk(e) if isinstance(x, ast.Name)):
+            if any(isinstance(x, (ast.Lambda, ast.Yield, ast.Await, ast.NamedExpr)) for e in bound.values() for x in ast.walk(e)):
                 continue
-            if any(isinstance(x, (ast.Call, ast.Lambda, ast.Yield, ast.Await)) for e in bound.values() for x in ast.walk(e)):
-                continue
+            # a partial evaluates what it binds when it is created: anything but a reference to a name bound once is evaluated here, into
+            # a fresh local the closure then reads
+            hoisted = []
+            for k_, e_ in list(bound.items()):
+                plain_ = isinstance(e_, ast.Constant) or (isinstance(e_, ast.Name) and stores.get(e_.id, 0) <= 1)
+                if not plain_:
+                    fresh = f"_pb_{st.targets[0].id}_{k_}"
+                    hoisted.append(ast.copy_location(ast.Assign(targets=[ast.Name(id=fresh, ctx=ast.Store())], value=e_), st))
+                    bound[k_] = ast.Name(id=fresh, ctx=ast.Load())
             n_def = len(a.defaults)
             required = params[:len(params) - n_def] if n_def else params
             left = [p for p in required if p not in bound]
@@ -966,10 +980,12 @@ def partials_to_defs(tree):
             call = ast.Call(func=ast.Name(id=target.name, ctx=ast.Load()), args=[], keywords=[ast.keyword(arg=p, value=ast.Name(id=p, ctx=ast.Load())) for p in left]
                             + [ast.keyword(arg=k, value=_copy(v)) for k, v in bound.items()])
             new = ast.FunctionDef(name=st.targets[0].id, args=ast.arguments(posonlyargs=[], args=[ast.arg(arg=p) for p in left], vararg=None, kwonlyargs=[], kw_defaults=[], kwarg=None, defaults=[]),
-                                  body=[ast.Return(value=call)], decorator_list=[], returns=None, type_comment=None, type_params=[])
+                                  body=[ast.Return(value=call)], decorator_list=[_copy(deco)] if deco is not None else [], returns=None, type_comment=None, type_params=[])
             ast.copy_location(new, st)
             ast.fix_missing_locations(new)
-            fn.body[i] = new
+            for h_ in hoisted:
+                ast.fix_missing_locations(h_)
+            fn.body[i:i + 1] = hoisted + [new]
             n += 1
     return n
 
